@@ -19,6 +19,7 @@ MIR flow (EventFlow)
 import re
 
 from .core import walk, find, show, is_call_to, path_of, strip_generics
+from .flow import Taint
 
 # --------------------------------------------------------------------------- carrier types
 
@@ -671,3 +672,40 @@ def enclosing_closures(root):
 
 def contains(node, target):
     return any(x is target for x in walk(node))
+
+
+class SeedTaint(Taint):
+    """Taint whose single source is an expression node (the value of a call) instead of a name."""
+
+    def __init__(self, seed, label):
+        Taint.__init__(self, {})
+        self.seed, self.label = seed, label
+
+    def eval(self, e):
+        r = Taint.eval(self, e)
+        if e is not None and isinstance(e, dict) and contains(e, self.seed):
+            r = set(r) | {self.label}
+        return r
+
+
+def _tail_expr(body):
+    st = body["stmts"]
+    if st and st[-1]["k"] == "expr" and not st[-1].get("semi"):
+        return st[-1]["e"]
+    return None
+
+
+def _closures(body):
+    out = []
+    for n in walk(body):
+        if n["k"] in ("mcall", "call"):
+            for a in n["args"]:
+                if a["k"] == "closure":
+                    out.append((a, n))
+    return out
+
+
+def strip_try(e):
+    while e["k"] == "try":
+        e = e["e"]
+    return e
